@@ -171,14 +171,21 @@ def pushEntries (c : Chan) (g : Gid) (k : Nat) : List Case → Chan
   | .recv :: r => pushEntries { c with recvQ := c.recvQ ++ [⟨g, some k⟩] } g k r
   | .dflt :: r => pushEntries c g k r
 
-/-- `$select(comms)`; `pick` stands for `Math.random()`: the chosen ready case is `ready[⌊(2·pick+1)·n / 24⌋]` -/
+/-- `$select`, first loop: a send case on a closed channel throws at once -/
+def sendOnClosed (s : St) (cs : List Case) : Bool :=
+  s.chan.closed && cs.any (fun c => match c with | .send _ => true | _ => false)
+
+/-- the case `$select` proceeds with, if any: a ready one — `pick` stands for `Math.random()`, the chosen ready case is
+    `ready[⌊(2·pick+1)·n / 24⌋]` — or else the default -/
+def choose (s : St) (cs : List Case) (pick : Nat) : Option Nat :=
+  let rd := readyIdx s cs
+  if rd.isEmpty then dfltIdx cs else rd[((2 * pick + 1) * rd.length) / 24]?
+
+/-- `$select(comms)` -/
 def select (s : St) (cs : List Case) (pick : Nat) : Out × St :=
-  if s.chan.closed && cs.any (fun c => match c with | .send _ => true | _ => false) then (.errSendClosed, s)
+  if sendOnClosed s cs then (.errSendClosed, s)
   else
-    let rd := readyIdx s cs
-    let choice : Option Nat :=
-      if rd.isEmpty then dfltIdx cs else rd[((2 * pick + 1) * rd.length) / 24]?
-    match choice with
+    match choose s cs pick with
     | some i =>
       match cs[i]? with
       | some (.send v) => let r := send s v; (if r.1 = .done then .selected i else r.1, r.2)
